@@ -406,6 +406,7 @@ Ltac good_value_tac :=
          | |- _ = _ => reflexivity
          | |- LexSpec.IntValue _ => apply int_re_spec; vm_compute; reflexivity
          | |- PrinterRoundtrip.valid_name _ => vname_tac
+         | |- (_ <= _)%N => lia
          | |- ~ _ => vm_compute; intuition discriminate
          end.
 
